@@ -26,7 +26,7 @@ def handle (stream : String) (args : List String) : Option String :=
   | "scan.ops", [ops, a, _] =>
     match decStr a with
     | none => some "bad-arg"
-    | some s => some (runScanOps (if ops = "-" then [] else ops.toList) s)
+    | some s => some (runScanOps (ops.toList.filter (fun c => c = 'S' ∨ c = 'R')) s)
   | _, _ => none
 
 end Oracle.Handlers.Scan
